@@ -11,6 +11,8 @@ shortest decimal repr; all arithmetic is exact.
 """
 import fractions
 import math as _math
+import os
+import re
 import time
 
 import z3
@@ -779,11 +781,19 @@ class Ctx:
         self.reach_len = -1
         self.nonlinear = False
         self.bounds = {}
+        self.want = []
 
     # -- solver helpers
     def _check(self, *extra):
         st = self.ex.stats
         t = time.time()
+        if self.ex.backend == 'cvc5':
+            r, model = cvc5_check(self, extra, self.ex.query_timeout_ms)
+            st.solver_s += time.time() - t
+            st.queries += 1
+            if r == z3.unknown:
+                st.unknown += 1
+            return r, model
         if self.ex.oneshot is True or (self.ex.oneshot == 'auto' and self.nonlinear):
             # one-shot solver: z3 then selects its complete QF_NRA procedure
             # (nlsat); the incremental core is much weaker on non-linear reals
@@ -1021,13 +1031,18 @@ class Ctx:
             for x in excluded:
                 self.solver.add(e != x)
                 self.extra_constraints.append(e != x)
-            r, m = self._check()
+            self.want = [e]
+            try:
+                r, m = self._check()
+            finally:
+                self.want = []
             if r == z3.unsat:
                 raise Abort()
             if r == z3.unknown:
                 self.ex.stats.reasons.append('unknown at concretise(%s)' % why)
                 raise Budget('unknown at concretise')
-            val = m.eval(e, model_completion=True).as_long()
+            mv = m.eval(e, model_completion=True)
+            val = mv.as_signed_long() if z3.is_bv_value(mv) else mv.as_long()
             if len(excluded) + 1 >= cap:
                 self.ex.stats.reasons.append('concretisation cap hit (%s)' % why)
                 self.ex.cap_hit = True
@@ -1224,6 +1239,99 @@ class Ctx:
         raise Unsupported("format of symbolic number with spec %r" % (spec,))
 
 
+class TextModel:
+    """model read back from an external solver: values of the declared inputs
+    and of explicitly requested terms"""
+
+    def __init__(self, values):
+        self.values = values      # z3 term id -> z3 value
+
+    def eval(self, term, model_completion=True):
+        v = self.values.get(term.get_id())
+        if v is None:
+            raise KeyError('value of %s was not requested from the external solver' % term)
+        return v
+
+
+def _parse_value(txt, sort):
+    txt = txt.strip()
+    if sort.kind() == z3.Z3_BV_SORT:
+        if txt.startswith('#b'):
+            return z3.BitVecVal(int(txt[2:], 2), sort.size())
+        if txt.startswith('#x'):
+            return z3.BitVecVal(int(txt[2:], 16), sort.size())
+        m = re.match(r'\(_ bv(\d+) \d+\)', txt)
+        return z3.BitVecVal(int(m.group(1)), sort.size())
+    if sort.kind() == z3.Z3_BOOL_SORT:
+        return z3.BoolVal(txt == 'true')
+    neg = False
+    m = re.match(r'^\(- (.*)\)$', txt)
+    if m:
+        neg, txt = True, m.group(1).strip()
+    m = re.match(r'^\(/ (\S+) (\S+)\)$', txt)
+    if m:
+        f = Fraction(m.group(1).rstrip('.0') or '0') if False else Fraction(Fraction(m.group(1)), Fraction(m.group(2)))
+    else:
+        f = Fraction(txt)
+    if neg:
+        f = -f
+    if sort.kind() == z3.Z3_INT_SORT:
+        return z3.IntVal(int(f))
+    return z3.RealVal(str(f))
+
+
+def cvc5_check(ctx, extra, timeout_ms):
+    """decide pc and extra with the cvc5 binary (QF_FP queries that z3 does not
+    finish).  Values of the declared inputs and of ctx.want terms are read back."""
+    import subprocess
+    import tempfile
+    s1 = z3.Solver()
+    s1.add(*ctx.pc)
+    s1.add(*ctx.extra_constraints)
+    if extra:
+        s1.add(*extra)
+    wanted = list(ctx.inputs.values()) + list(ctx.want)
+    names = []
+    for i, w in enumerate(wanted):
+        k = z3.Const('want!%d' % i, w.sort())
+        s1.add(k == w)
+        names.append((k, w))
+    txt = s1.to_smt2()
+    txt = '(set-logic ALL)\n(set-option :produce-models true)\n' + txt
+    txt += '\n(get-value (%s))\n' % ' '.join('want!%d' % i for i in range(len(names))) if names else ''
+    fd, path = tempfile.mkstemp(suffix='.smt2', prefix='symx')
+    try:
+        with os.fdopen(fd, 'w') as fh:
+            fh.write(txt)
+        try:
+            out = subprocess.run(['cvc5', '--tlimit=%d' % timeout_ms, path], capture_output=True, text=True,
+                                 timeout=timeout_ms / 1000.0 + 20).stdout
+        except subprocess.TimeoutExpired:
+            return z3.unknown, None
+    finally:
+        try:
+            os.remove(path)
+        except OSError:
+            pass
+    first = out.strip().split('\n')[0].strip() if out.strip() else ''
+    if '(error' in out and first not in ('sat', 'unsat'):
+        ctx.ex.stats.reasons.append('cvc5: %s' % out.strip()[:160])
+        return z3.unknown, None
+    if first == 'unsat':
+        return z3.unsat, None
+    if first != 'sat':
+        return z3.unknown, None
+    vals = {}
+    for m in re.finditer(r'\(want!(\d+) ((?:\([^()]*(?:\([^()]*\)[^()]*)*\))|[^()\s]+)\)', out):
+        i = int(m.group(1))
+        k, w = names[i]
+        try:
+            vals[w.get_id()] = _parse_value(m.group(2), w.sort())
+        except Exception:
+            pass
+    return z3.sat, TextModel(vals)
+
+
 def z3_to_py(val):
     if z3.is_int_value(val):
         return val.as_long()
@@ -1246,8 +1354,9 @@ def z3_to_py(val):
 class Explorer:
     def __init__(self, max_paths=20000, query_timeout_ms=10000,
                  concretize_cap=64, wall_s=None, stop_on_violation=True,
-                 max_samples=3, oneshot='auto'):
+                 max_samples=3, oneshot='auto', backend='z3'):
         self.oneshot = oneshot
+        self.backend = backend
         self.max_paths = max_paths
         self.query_timeout_ms = query_timeout_ms
         self.concretize_cap = concretize_cap
